@@ -45,5 +45,6 @@ let () =
     | "conc" -> M_conc.run_line
     | "lin" -> M_lin.run_line
     | "own" -> M_own.run_line
+    | "race" -> M_race.run_line
     | _ -> failwith ("unknown mode " ^ mode) in
   iter_lines stdin (fun line -> if line <> "" then f line)
